@@ -264,13 +264,13 @@ def run_leg(leg, log=None):
             workers = {}
         if not progressed:
             time.sleep(0.02)
-    # confirm suspects alone, on an otherwise idle machine (at most 6 per leg: once a tree is
+    # confirm suspects alone, on an otherwise idle machine (at most 4 per leg: once a tree is
     # that broken, more isolated re-runs add time, not information)
-    if len(suspects) > 6:
-        for (k, desc, kind) in suspects[6:]:
+    if len(suspects) > 4:
+        for (k, desc, kind) in suspects[4:]:
             res.evaluations += 1
             res.tags["suspect_not_rerun_alone:" + kind.split(":")[0]] += 1
-        suspects = suspects[:6]
+        suspects = suspects[:4]
     for (k, desc, kind) in suspects:
         res.evaluations += 1
         outcomes = []
